@@ -98,7 +98,21 @@ def some_mixture(rng, p_builtin=0.5, idx=None):
         return bm[idx]
     if rng.random() < p_builtin:
         return rng.choice(bm)
-    return synthetic_mixture(rng, "SYN%d" % rng.randrange(10 ** 6))
+    # distinct synthetic objects deliberately SHARE names (a tiny pool): anything keyed by a name instead of by the
+    # object's parameters shows up as a wrong answer
+    return synthetic_mixture(rng, rng.choice(["SYN", "SYN", "SYN_A", "SYN%d" % rng.randrange(10 ** 6)]))
+
+
+GRID_T = [283.15, 298.15, 313.15, 323.15, 333.15, 353.15, 373.15]
+
+
+def some_temperature(rng, lo=273.0, hi=400.0, p_grid=0.3):
+    """a temperature in [lo, hi]; with probability p_grid from a small grid, so that distinct objects meet at EQUAL arguments"""
+    if rng.random() < p_grid:
+        c = [t for t in GRID_T if lo <= t <= hi]
+        if c:
+            return rng.choice(c)
+    return rng.uniform(lo, hi)
 
 
 def fraction(rng, ends=True):
